@@ -146,6 +146,10 @@ def classify(case, res):
         if st == "err":
             if o["err"]["kind"] != res["kind"] and drift is None:
                 drift = "error variant %s, specification %s" % (o["err"]["kind"], res["kind"])
+            if drift is None:
+                shape = lambda ch: [(x["ck"], [(s_["sl"], s_["st"], s_["nk"], s_["np"]) for s_ in x.get("stmts", [])]) for x in ch]
+                if shape(o["err"]["chain"]) != shape(res["chain"]):
+                    drift = "context chain differs from the machine's"
             return {"verdict": "agree", "detail": "err", "drift": drift}
         return {"verdict": "violation", "detail": "specification: error %s; library: %s" % (res["kind"], st), "drift": drift,
                 "sig": {"observed": st, "expected": "err", "kind": res["kind"]}}
